@@ -247,25 +247,168 @@ type reuseRec struct {
 	Result  string `json:"result_g"`
 	ResAbs  string `json:"result_abs"`
 	Err     string `json:"err,omitempty"`
+	// model-free judgement: the abstract value the variable holds afterwards equals the decoded value (NaN = NaN); the variable is zero
+	ResEqual   bool   `json:"result_equal"`
+	Zeroed     bool   `json:"zeroed"`
+	PrefillAbs string `json:"prefill_abs"`
 }
 
-// cmdReuse: decode into a destination variable that already holds another value of the same Go type (longer, shorter, other keys).
+// full: a value of type t without NULLs and without empty containers (1-2 elements)
+func (g *gen) full(t *ctype) *aval {
+	switch t.kind {
+	case "scalar":
+		return g.scalarValue(t.scalar)
+	case "list", "set":
+		r := &aval{kind: "list", elems: []*aval{}}
+		for i := 0; i < 1+g.pick(2); i++ {
+			r.elems = append(r.elems, g.full(t.elem))
+		}
+		return r
+	case "map":
+		r := &aval{kind: "map"}
+		seen := map[string]bool{}
+		for i := 0; i < 1+g.pick(2); i++ {
+			k := g.full(t.key)
+			if seen[k.canon().coq()] || isNaNKey(t.key, k) {
+				continue
+			}
+			seen[k.canon().coq()] = true
+			r.pairs = append(r.pairs, [2]*aval{k, g.full(t.val)})
+		}
+		return r
+	default:
+		r := &aval{kind: t.kind, elems: []*aval{}}
+		for _, f := range t.fields {
+			r.elems = append(r.elems, g.full(f))
+		}
+		return r
+	}
+}
+
+// nullAt: copies of a with a NULL at one position: every element / field / map value of the top level, and every position one level
+// further down inside tuple / UDT fields and list elements
+func nullAt(t *ctype, a *aval, deep bool) []*aval {
+	var out []*aval
+	switch t.kind {
+	case "list", "set", "tuple", "udt":
+		for i := range a.elems {
+			c := &aval{kind: a.kind, elems: append([]*aval{}, a.elems...)}
+			c.elems[i] = aNull
+			out = append(out, c)
+			if deep {
+				ct := t.elem
+				if t.kind == "tuple" || t.kind == "udt" {
+					ct = t.fields[i]
+				}
+				for _, sub := range nullAt(ct, a.elems[i], false) {
+					c := &aval{kind: a.kind, elems: append([]*aval{}, a.elems...)}
+					c.elems[i] = sub
+					out = append(out, c)
+				}
+			}
+		}
+	case "map":
+		for i := range a.pairs {
+			c := &aval{kind: "map", pairs: append([][2]*aval{}, a.pairs...)}
+			c.pairs[i] = [2]*aval{a.pairs[i][0], aNull}
+			out = append(out, c)
+		}
+	}
+	return out
+}
+
+// cmdReuse: decode into a destination variable that already holds another value of the same Go type (longer, shorter, other keys,
+// non-NULL where the decoded value has a NULL): the variable must end up holding the decoded value, nothing of the old one.
 func cmdReuse(n int) {
 	g := &gen{r: rand.New(rand.NewSource(hlib.Seed() + 41))}
 	i32, txt := scalarT("SInt"), scalarT("SVarchar")
 	types := []*ctype{listT(i32), setT(txt), listT(listT(i32)), mapT(txt, i32), mapT(i32, listT(txt)), tupleT(i32, txt), tupleT(i32, txt, listT(i32)),
-		udtT([]string{"a", "Value"}, i32, txt), udtT([]string{"a", "Value", "x_1"}, i32, txt, listT(i32)), listT(tupleT(i32, txt)), listT(udtT([]string{"id"}, txt))}
+		udtT([]string{"a", "Value"}, i32, txt), udtT([]string{"a", "Value", "x_1"}, i32, txt, listT(i32)), listT(tupleT(i32, txt)), listT(udtT([]string{"id"}, txt)),
+		tupleT(scalarT("SInet"), scalarT("SUuid"), scalarT("SVarint")), udtT([]string{"a", "b"}, tupleT(i32, txt), scalarT("SBlob"))}
+	nDirected := len(types)
 	id := 0
-	for len(types) < 11+n/40 {
+	for len(types) < nDirected+n/40 {
 		t := g.typeTree(2 + g.pick(2))
 		if t.kind != "scalar" {
 			types = append(types, t)
 		}
 	}
-	for _, t := range types {
+	runPair := func(t *ctype, codec datacodec.Codec, a, p *aval, r *rep, ver primitive.ProtocolVersion, inputs []string) {
+		if r.kind == "ptr" {
+			r = r.inner
+		}
+		gty, _ := gtyOf(t, r.gt)
+		var enc []byte
+		var eerr error
+		if pn, _ := safely(func() { enc, eerr = codec.Encode(r.mk(a).Interface(), ver) }); pn || eerr != nil || enc == nil {
+			return
+		}
+		for _, in := range inputs {
+			dest := reflect.New(r.gt)
+			dest.Elem().Set(r.mk(p))
+			rec := &reuseRec{Kind: "reuse", Id: fmt.Sprintf("r%d", id), Ver: int(ver), TypeCql: t.dt.AsCql(), TypeCoq: t.coq(), Rep: r.String(), Gty: gty,
+				Input: in, ValCoq: a.canon().coq(), PrefillAbs: p.canon().coq()}
+			if gty != "" {
+				rec.Prefill = gvalOf(t, r.gt, dest.Elem())
+			}
+			id++
+			var src []byte
+			switch in {
+			case "value":
+				src = enc
+				rec.Hex = hex.EncodeToString(enc)
+			case "empty":
+				src = []byte{}
+			}
+			if len(rec.Hex) > 4000 {
+				continue
+			}
+			var wn bool
+			var derr error
+			if pn, msg := safely(func() { wn, derr = codec.Decode(src, dest.Interface(), ver) }); pn {
+				rec.Class, rec.Err = "panic", msg
+			} else if derr != nil {
+				rec.Class, rec.Err = "err", derr.Error()
+			} else {
+				rec.Class, rec.WasNull = "ok", wn
+				if gty != "" {
+					rec.Result = gvalOf(t, r.gt, dest.Elem())
+				}
+				d := abs(t, dest.Elem())
+				rec.ResAbs = d.canon().coq()
+				rec.ResEqual = aEqual(d, a)
+				rec.Zeroed = dest.Elem().IsZero()
+			}
+			hlib.Emit(rec)
+		}
+	}
+	for ti, t := range types {
 		codec, err := datacodec.NewCodec(t.dt)
 		if err != nil {
 			continue
+		}
+		if ti < nDirected {
+			// directed: the pre-filled value has no NULL and no empty container; the decoded one has a NULL at one position, for every
+			// position, in the preferred and in several other representations able to hold both
+			p, base := g.full(t), g.full(t)
+			for _, a := range nullAt(t, base, true) {
+				ver := primitive.ProtocolVersion4
+				if !nullInColl(t, a) && g.pick(2) == 0 {
+					ver = primitive.ProtocolVersion2
+				}
+				seen := map[reflect.Type]bool{}
+				for k := 0; k < 6; k++ {
+					r := g.plan(t, []*aval{a, p}, false, k == 0)
+					if r.kind == "ptr" {
+						r = r.inner
+					}
+					if seen[r.gt] {
+						continue
+					}
+					seen[r.gt] = true
+					runPair(t, codec, a, p, r, ver, []string{"value"})
+				}
+			}
 		}
 		for k := 0; k < 10; k++ {
 			// two values of one representation: the pre-filled one and the decoded one
@@ -274,55 +417,11 @@ func cmdReuse(n int) {
 				continue
 			}
 			r := g.plan(t, []*aval{a, p}, false, k == 0)
-			if r.kind == "ptr" {
-				r = r.inner
-			}
-			if r.kind == "array" || r.kind == "tuparray" {
-				// arrays have one length: both values must fit, which plan checked for "array" only when lengths agree
-			}
-			gty, ok := gtyOf(t, r.gt)
-			if !ok {
-				continue
-			}
 			ver := primitive.ProtocolVersion4
 			if g.pick(3) == 0 && !nullInColl(t, a) {
 				ver = primitive.ProtocolVersion2
 			}
-			var enc []byte
-			var eerr error
-			if pn, _ := safely(func() { enc, eerr = codec.Encode(r.mk(a).Interface(), ver) }); pn || eerr != nil || enc == nil {
-				continue
-			}
-			for _, in := range []string{"value", "null", "empty"} {
-				dest := reflect.New(r.gt)
-				dest.Elem().Set(r.mk(p))
-				rec := &reuseRec{Kind: "reuse", Id: fmt.Sprintf("r%d", id), Ver: int(ver), TypeCql: t.dt.AsCql(), TypeCoq: t.coq(), Rep: r.String(), Gty: gty,
-					Prefill: gvalOf(t, r.gt, dest.Elem()), Input: in, ValCoq: a.canon().coq()}
-				id++
-				var src []byte
-				switch in {
-				case "value":
-					src = enc
-					rec.Hex = hex.EncodeToString(enc)
-				case "empty":
-					src = []byte{}
-				}
-				if len(rec.Hex) > 4000 {
-					continue
-				}
-				var wn bool
-				var derr error
-				if pn, msg := safely(func() { wn, derr = codec.Decode(src, dest.Interface(), ver) }); pn {
-					rec.Class, rec.Err = "panic", msg
-				} else if derr != nil {
-					rec.Class, rec.Err = "err", derr.Error()
-				} else {
-					rec.Class, rec.WasNull = "ok", wn
-					rec.Result = gvalOf(t, r.gt, dest.Elem())
-					rec.ResAbs = abs(t, dest.Elem()).canon().coq()
-				}
-				hlib.Emit(rec)
-			}
+			runPair(t, codec, a, p, r, ver, []string{"value", "null", "empty"})
 		}
 	}
 }
